@@ -27,7 +27,7 @@ func checkC02(c *Ctx) {
 		"(T5) a clean close is reachable only after a processor call with last=true (from the entry: T5-first, after a non-final call: T5-next); " +
 		"(H1/H2) in the header reader a source-read error not established to be io.EOF is returned, and the reader handed on (stored through the *io.Reader parameter, or returned) still contains the source unless the source returned io.EOF; " +
 		"(T7) Decrypt returns the read half of the io.Pipe whose write half reaches the segment loop, and the processor the loop gets on the way from Decrypt authenticates (calls AEAD.Open, itself or through same-package functions). " +
-		"NOT decided: that AEAD rejects a given mutation (trusted primitive), that the bytes released are a prefix of the plaintext as a runtime fact, byte-exact round trip (C01), anything about the header MAC (NOTE only: every payload byte is authenticated by the AEAD under a key derived from the file key and nonce prefix, so the statement holds with or without the MAC), constant-time behaviour, the number of bytes written, the Read-chunking contract of the fill loop (C01-R1). UNDECIDED (not followed): error variables or the pipe captured by closures (e.g. a single deferred closure that closes the pipe according to a captured error), a segment counter kept in a struct field, helpers nested more than three levels, a segment processor with a different signature."
+		"NOT decided: that AEAD rejects a given mutation (trusted primitive), that the bytes released are a prefix of the plaintext as a runtime fact, byte-exact round trip (C01), anything about the header MAC (NOTE only: every payload byte is authenticated by the AEAD under a key derived from the file key and nonce prefix, so the statement holds with or without the MAC), constant-time behaviour, the number of bytes written, the Read-chunking contract of the fill loop (C01-R1). The path explorer works instruction by instruction: it tracks the memory the function owns (locals, fields of local structs by value or pointer incl. nested sub-structs, fields behind its pointer receiver), keeps eager symbolic offsets (value = base + constant), steps into loop-free same-package helpers so that the flags / small enums / tuples a phase helper returns stay correlated with the branches its caller takes, and evaluates comparisons of constants and of errors with nil. Calls through an unexported interface seam are followed to the implementations that are converted to the interface on the way from Decrypt; function values are resolved through parameters, captures, fields and literal tables. An authentication helper may report (value, ok bool) instead of an error. UNDECIDED (not followed): error variables or the pipe captured by closures (e.g. a single deferred closure that closes the pipe according to a captured error), errors kept in struct fields, helpers with loops that compute flags the loop branches on, helpers nested more than three levels, a segment processor with a different signature."
 	r.Assumptions = append(r.Assumptions,
 		"cipher.AEAD.Open returns a non-nil error for any ciphertext/nonce pair not produced by Seal under the same key (trusted primitive)",
 		"package-level sentinel errors (ErrDecryptionFailed, io.ErrUnexpectedEOF, ...) are non-nil and not reassigned; errors.New / fmt.Errorf and same-package helpers all of whose returns are such values return non-nil errors",
@@ -228,8 +228,8 @@ func c02CheckSegFn(p *Prog, r *Report, ctx *c02SegCtx, rootName string) {
 		// an authenticating helper
 		sig := call.Call.Signature()
 		n := sig.Results().Len()
-		if n == 0 || !types.Identical(sig.Results().At(n-1).Type(), errT) {
-			undecided("%s authenticates the segment inside %s, which does not return an error last; whether authentication succeeded cannot be followed", name, FuncName(p, h))
+		if n == 0 || !(types.Identical(sig.Results().At(n-1).Type(), errT) || c02IsBool(sig.Results().At(n-1).Type())) {
+			undecided("%s authenticates the segment inside %s, which returns neither an error nor an ok flag last; whether authentication succeeded cannot be followed", name, FuncName(p, h))
 		}
 		if ctx.depth >= 3 {
 			undecided("%s: authentication is nested more than three helpers deep (%s); not followed", name, FuncName(p, h))
@@ -310,7 +310,7 @@ func c02CheckSegFn(p *Prog, r *Report, ctx *c02SegCtx, rootName string) {
 				if len(s.Preds) != 1 {
 					continue
 				}
-				if v, isNil, ok := c02NilTest(s.Preds[0], s); ok && isNil && c02Carries(v, openErrs[oi]) {
+				if v, isNil, ok := c02OutcomeTest(s.Preds[0], s); ok && isNil && c02Carries(v, openErrs[oi]) {
 					// the test must come after the event
 					if ifi := s.Preds[0].Instrs[len(s.Preds[0].Instrs)-1]; instrDominates(o, ifi) {
 						return true
@@ -420,7 +420,7 @@ func c02CheckSegFn(p *Prog, r *Report, ctx *c02SegCtx, rootName string) {
 	ff := &FlagFlow{Fn: fn, Must: false,
 		Transfer: func(in ssa.Instruction, st uint64) uint64 { return st },
 		EdgeTransfer: func(from, to *ssa.BasicBlock, st uint64) uint64 {
-			if v, isNil, ok := c02NilTest(from, to); ok && !isNil && c02CarriesAny(v, openErrs) {
+			if v, isNil, ok := c02OutcomeTest(from, to); ok && !isNil && c02CarriesAny(v, openErrs) {
 				nEdges++
 				return st | failed
 			}
@@ -435,13 +435,13 @@ func c02CheckSegFn(p *Prog, r *Report, ctx *c02SegCtx, rootName string) {
 		}
 		nRet++
 		res := c02Ret(ret, len(ret.Results)-1)
-		if isNilConst(res) {
+		if c02SuccessConst(res) {
 			bad = p.Pos(ret.Pos())
 			return
 		}
 		if phi, ok := res.(*ssa.Phi); ok {
 			for i, e := range phi.Edges {
-				if !isNilConst(e) {
+				if !c02SuccessConst(e) {
 					continue
 				}
 				pred := phi.Block().Preds[i]
@@ -455,8 +455,10 @@ func c02CheckSegFn(p *Prog, r *Report, ctx *c02SegCtx, rootName string) {
 	// a function that simply returns the helper's error (return k.open(...)) has no test of its own: the returned value carries the error
 	direct := false
 	allInstrs(fn, func(in ssa.Instruction) {
-		if ret, ok := in.(*ssa.Return); ok && len(ret.Results) > 0 && c02CarriesAny(c02Ret(ret, len(ret.Results)-1), openErrs) {
-			direct = true
+		if ret, ok := in.(*ssa.Return); ok && len(ret.Results) > 0 {
+			if rv := c02Ret(ret, len(ret.Results)-1); c02CarriesAny(rv, openErrs) || c02IsOutcomeExpr(rv, openErrs) {
+				direct = true
+			}
 		}
 	})
 	switch {
@@ -643,7 +645,7 @@ func c02SuccessImpliesVerified(p *Prog, r *Report, fn *ssa.Function, name string
 	ff := &FlagFlow{Fn: fn, Must: true,
 		Transfer: func(in ssa.Instruction, st uint64) uint64 { return st },
 		EdgeTransfer: func(from, to *ssa.BasicBlock, st uint64) uint64 {
-			v, isNil, ok := c02NilTest(from, to)
+			v, isNil, ok := c02OutcomeTest(from, to)
 			if !ok || !isNil {
 				return st
 			}
@@ -658,11 +660,11 @@ func c02SuccessImpliesVerified(p *Prog, r *Report, fn *ssa.Function, name string
 	ff.Run()
 	// nonNilAt: value e, flowing out of block b (along the edge b->to if to != nil), is a non-nil error
 	nonNilAt := func(e ssa.Value, b, to *ssa.BasicBlock) bool {
-		if c02ErrShapeNonNil(e) {
+		if c02ErrShapeNonNil(e) || c02FailConst(e) {
 			return true
 		}
 		if to != nil {
-			if v, isNil, ok := c02NilTest(b, to); ok && !isNil && c02Carries(v, e) {
+			if v, isNil, ok := c02OutcomeTest(b, to); ok && !isNil && c02Carries(v, e) {
 				return true
 			}
 		}
@@ -670,7 +672,7 @@ func c02SuccessImpliesVerified(p *Prog, r *Report, fn *ssa.Function, name string
 			if len(s.Preds) != 1 {
 				continue
 			}
-			if v, isNil, ok := c02NilTest(s.Preds[0], s); ok && !isNil && (v == e || c02Carries(v, e)) {
+			if v, isNil, ok := c02OutcomeTest(s.Preds[0], s); ok && !isNil && (v == e || c02Carries(v, e)) {
 				return true
 			}
 		}
@@ -683,7 +685,7 @@ func c02SuccessImpliesVerified(p *Prog, r *Report, fn *ssa.Function, name string
 		if verified {
 			return
 		}
-		if isNilConst(e) {
+		if c02SuccessConst(e) {
 			bad = append(bad, pos)
 			return
 		}
@@ -691,7 +693,7 @@ func c02SuccessImpliesVerified(p *Prog, r *Report, fn *ssa.Function, name string
 			return
 		}
 		// the authentication error itself is returned: nil exactly when the segment was authenticated
-		if _, isPhi := e.(*ssa.Phi); !isPhi && c02CarriesAny(e, openErrs) {
+		if _, isPhi := e.(*ssa.Phi); !isPhi && (c02CarriesAny(e, openErrs) || c02IsOutcomeExpr(e, openErrs)) {
 			return
 		}
 		if phi, ok := e.(*ssa.Phi); ok && depth < 4 {
@@ -1600,15 +1602,223 @@ func c02Counter(r *Report, L *c02Loop) {
 				why = "the segment number never changes between iterations: every segment is sealed/opened at the same position (swap, duplication and removal of segments go undetected)"
 			}
 			if strings.HasSuffix(why, "cannot classify") {
-				r.Undecide("%s: %s", construct, why)
+				// not the plain `counter = counter + c` shape (e.g. the next number comes out of a helper): decide it on paths
+				c02CounterByPaths(r, L, cl, inner, n)
 				continue
 			}
 			if r.Check(why == "", "C02.T4-counter", construct, p.Pos(cl.Pos()), "loop-carried counter, changed by a non-zero constant on every back edge", why) {
 				c02CounterRange(r, L, cl, x, n, step, stepKnown)
 			}
 		default:
-			r.Undecide("%s: the segment number is neither a loop-carried counter nor a constant (%T); cannot classify", construct, n)
+			// e.g. a counter kept in a struct field or a local struct: decide it on paths
+			c02CounterByPaths(r, L, cl, inner, n)
 		}
+	}
+}
+
+// c02CounterByPaths decides T4-counter and T4-counter-range without assuming
+// how the counter is stored or updated: starting right after a processor call
+// made with last=false, every path to the next processor call is followed
+// (through owned memory cells and loop-free same-package helpers); at the next
+// call the number must be the old number plus a non-zero constant, and on the
+// way an edge must have bounded it so that the new number fits.
+func c02CounterByPaths(r *Report, L *c02Loop, cl *ssa.Call, tok ssa.Value, arg ssa.Value) {
+	p := L.p
+	construct := L.name + " processFn segment number"
+	isCall := map[ssa.Instruction]bool{}
+	for _, x := range L.calls {
+		isCall[x] = true
+	}
+	isClose := map[ssa.Instruction]bool{}
+	for _, x := range L.closes {
+		isClose[x] = true
+	}
+	lv := L.lastArg(cl)
+	mkEnv := func() *c02Env {
+		env := &c02Env{bind: map[ssa.Value]ssa.Value{}, known: map[ssa.Value]bool{}}
+		c02SeedMem(env, tok)
+		if _, isConst := lv.(*ssa.Const); !isConst {
+			c02LearnAssumption(env, lv, false, 0)
+		}
+		return env
+	}
+	if k, isConst := lv.(*ssa.Const); isConst && k.Value != nil && k.Value.ExactString() == "true" {
+		r.Trivial("C02.T4-counter", construct, p.Pos(cl.Pos()), "this call site always passes last=true (no next segment)")
+		r.Trivial("C02.T4-counter-range", L.name+" segment number range", p.Pos(cl.Pos()), "this call site always passes last=true (no next segment)")
+		return
+	}
+	var changed, unchanged, unknown []string
+	var step int64
+	_, ex := c02ExploreX(cl.Block(), instrIndex(cl)+1, mkEnv(), &c02XOpts{Visit: func(in ssa.Instruction, env *c02Env) c02Action {
+		switch {
+		case isClose[in]:
+			return c02Stop
+		case isCall[in]:
+			sy := env.symOf(L.numArg(in.(*ssa.Call)))
+			switch {
+			case sy.base == tok && sy.off != 0:
+				changed = append(changed, p.Pos(in.Pos()))
+				if sy.off > step {
+					step = sy.off
+				}
+				if -sy.off > step {
+					step = -sy.off
+				}
+			case sy.base == tok:
+				unchanged = append(unchanged, p.Pos(in.Pos()))
+			default:
+				unknown = append(unknown, p.Pos(in.Pos()))
+			}
+			return c02Stop
+		}
+		return c02Continue
+	}})
+	switch {
+	case !ex:
+		r.Undecide("%s: path exploration exceeded its budget", construct)
+		return
+	case len(unchanged) > 0:
+		r.Violation("C02.T4-counter", construct, p.Pos(cl.Pos()),
+			"the next segment can be processed with the same segment number as the previous one (two segments get the same number, hence the same nonce): swap, duplication and removal of segments go undetected")
+		return
+	case len(unknown) > 0:
+		r.Undecide("%s: on a path to the next segment (%s) the segment number is not visibly the previous number plus a constant; cannot classify", construct, unknown[0])
+		return
+	case len(changed) == 0:
+		r.Undecide("%s: no path from one segment to the next was found; cannot classify", construct)
+		return
+	}
+	r.OK("C02.T4-counter", construct, p.Pos(cl.Pos()), "on every path to the next segment the number is the previous number plus a non-zero constant")
+
+	// range
+	rconstruct := L.name + " segment number range"
+	ctrMax, ok1 := c02IntRange(tok.Type())
+	argMax, ok2 := c02IntRange(arg.Type())
+	if !ok1 || !ok2 || step <= 0 {
+		r.Undecide("%s: counter type, parameter type or step not recognised; cannot classify", rconstruct)
+		return
+	}
+	limit := ctrMax
+	if argMax < limit {
+		limit = argMax
+	}
+	guard := func(from, to *ssa.BasicBlock, env *c02Env) bool {
+		if len(from.Instrs) == 0 || len(from.Succs) != 2 || from.Succs[0] == from.Succs[1] {
+			return false
+		}
+		ifi, ok := from.Instrs[len(from.Instrs)-1].(*ssa.If)
+		if !ok {
+			return false
+		}
+		cmp, ok := decodeCond(ifi.Cond, from.Succs[0] == to)
+		if !ok {
+			return false
+		}
+		x, y, op := cmp.X, cmp.Y, cmp.Op
+		if _, isK := env.resolve(x).(*ssa.Const); isK {
+			x, y = y, x
+			switch op {
+			case token.LSS:
+				op = token.GTR
+			case token.GTR:
+				op = token.LSS
+			case token.LEQ:
+				op = token.GEQ
+			case token.GEQ:
+				op = token.LEQ
+			}
+		}
+		sy := env.symOf(x)
+		if sy.base != tok || sy.off < 0 {
+			return false
+		}
+		kc, isK := env.resolve(y).(*ssa.Const)
+		if !isK || kc.Value == nil || kc.Value.Kind() != constant.Int {
+			return false
+		}
+		ku, exact := constant.Uint64Val(kc.Value)
+		if !exact {
+			return false
+		}
+		add := uint64(sy.off)
+		var bound uint64 // upper bound established for tok+add
+		switch op {
+		case token.LSS:
+			if ku == 0 {
+				return false
+			}
+			bound = ku - 1
+		case token.LEQ:
+			bound = ku
+		case token.NEQ:
+			if ku == 0 && add > 0 && int64(add) == step && ctrMax == limit {
+				return true // tok+step != 0: the increment did not wrap
+			}
+			if ku != ctrMax || add != 0 {
+				return false
+			}
+			bound = ku - 1
+		default:
+			return false
+		}
+		if bound < add {
+			return false
+		}
+		next := bound - add + uint64(step)
+		if next < bound-add {
+			return false
+		}
+		return next <= limit
+	}
+	hits, ex2 := c02ExploreX(cl.Block(), instrIndex(cl)+1, mkEnv(), &c02XOpts{
+		Visit: func(in ssa.Instruction, env *c02Env) c02Action {
+			switch {
+			case isCall[in]:
+				return c02Target
+			case isClose[in]:
+				return c02Stop
+			}
+			return c02Continue
+		},
+		EdgeStop: guard,
+	})
+	if !ex2 {
+		r.Undecide("%s: path exploration exceeded its budget", rconstruct)
+		return
+	}
+	if len(hits) == 0 {
+		r.OK("C02.T4-counter-range", rconstruct, p.Pos(cl.Pos()), fmt.Sprintf("between two segments the counter is bounded so that the next number fits (limit %d)", limit))
+		return
+	}
+	how := fmt.Sprintf("the %s counter wraps around", tok.Type())
+	if argMax < ctrMax {
+		how = fmt.Sprintf("the %s counter is truncated by the conversion to %s", tok.Type(), arg.Type())
+	}
+	r.Violation("C02.T4-counter-range", rconstruct, p.Pos(instrPos(hits[0].Instr)),
+		"the next segment can be processed without any bound on the segment counter having been checked: after 2^32 segments "+how+" and segment i+2^32 is handed the same number — hence the same nonce — as segment i. processSegments is shared by Encrypt and Decrypt: when encrypting this is nonce reuse under one key, when decrypting a segment authenticates at two positions (swap/duplication undetected). An overflow guard (counter compared with a constant bound, failing side closing the stream with an error) must lie on every path between two segments",
+		c02Trail(p, hits[0].Trail)...)
+}
+
+// c02SeedMem: if v is a load from a cell the function owns, that load names
+// the cell's content at the start of an exploration (later loads of the same
+// cell then denote the same value until it is stored to).
+func c02SeedMem(env *c02Env, v ssa.Value) {
+	for i := 0; i < 3; i++ {
+		if cv, ok := v.(*ssa.Convert); ok {
+			v = cv.X
+			continue
+		}
+		break
+	}
+	u, ok := v.(*ssa.UnOp)
+	if !ok || u.Op != token.MUL {
+		return
+	}
+	if _, key, ok := c02CellKey(u.X); ok {
+		if env.mem == nil {
+			env.mem = map[string]ssa.Value{}
+		}
+		env.mem[key] = u
 	}
 }
 
@@ -1776,6 +1986,7 @@ func c02CounterRange(r *Report, L *c02Loop, cl *ssa.Call, ctr *ssa.Phi, arg ssa.
 			return
 		}
 	} else {
+		c02SeedMem(env, lv)
 		c02LearnAssumption(env, lv, false, 0)
 	}
 	hits, exhausted := c02ExploreEdges(cl.Block(), instrIndex(cl)+1, env, func(in ssa.Instruction) c02Action {
@@ -1901,6 +2112,7 @@ func c02Finality(r *Report, L *c02Loop) {
 		if !(isConst && constVal) {
 			env := &c02Env{bind: map[ssa.Value]ssa.Value{}, known: map[ssa.Value]bool{}}
 			if !isConst {
+				c02SeedMem(env, lv)
 				c02LearnAssumption(env, lv, false, 0)
 			}
 			hits, ex := c02Explore(cl.Block(), idx, env, toCleanClose)
@@ -1913,6 +2125,7 @@ func c02Finality(r *Report, L *c02Loop) {
 		if !(isConst && !constVal) {
 			env := &c02Env{bind: map[ssa.Value]ssa.Value{}, known: map[ssa.Value]bool{}}
 			if !isConst {
+				c02SeedMem(env, lv)
 				c02LearnAssumption(env, lv, true, 0)
 			}
 			hits, ex := c02Explore(cl.Block(), idx, env, func(in ssa.Instruction) c02Action {
@@ -2009,6 +2222,32 @@ func c02CheckWiring(p *Prog, r *Report, ro *c02Roles) {
 			}
 		}
 		if target == nil && v != nil {
+			// an element of a literal table / slice of function values: every value stored into its backing array
+			if u, ok := c02Origin(v).(*ssa.UnOp); ok {
+				if ia, ok := u.X.(*ssa.IndexAddr); ok {
+					base := c02SliceBase(ia.X)
+					if al, ok := base.(*ssa.Alloc); ok {
+						n := 0
+						for _, rr := range refs(al) {
+							ia2, ok := rr.(*ssa.IndexAddr)
+							if !ok {
+								continue
+							}
+							for _, r2 := range refs(ia2) {
+								if st, ok := r2.(*ssa.Store); ok && st.Addr == ssa.Value(ia2) {
+									n++
+									judge(where, st.Pos(), st.Val, nil)
+								}
+							}
+						}
+						if n > 0 {
+							return
+						}
+					}
+				}
+			}
+		}
+		if target == nil && v != nil {
 			// a struct field (the loop is a method of a small struct): every value stored
 			// into that field on the way from Decrypt
 			if id, _, ok := fieldOfValue(c02Origin(v)); ok {
@@ -2057,6 +2296,30 @@ func c02CheckWiring(p *Prog, r *Report, ro *c02Roles) {
 			// a loop function that calls the processor statically / through a captured or stored value
 			if isLoop[f] && c02ProcCall(ci) {
 				cc := ci.Common()
+				if cc.IsInvoke() {
+					// an interface seam: every implementation whose values are converted to an interface on the way from Decrypt
+					n := 0
+					seenImpl := map[*ssa.Function]bool{}
+					for _, g := range fns {
+						allInstrs(g, func(j ssa.Instruction) {
+							mi, ok := j.(*ssa.MakeInterface)
+							if !ok {
+								return
+							}
+							for _, m := range c02MethodsOf(g.Prog, mi.X.Type(), decrypt.Pkg.Pkg) {
+								if m.Name() == cc.Method.Name() && c02ProcSig(m.Signature) && !seenImpl[m] {
+									seenImpl[m] = true
+									n++
+									judge(FuncName(p, f), mi.Pos(), nil, m)
+								}
+							}
+						})
+					}
+					if n == 0 {
+						r.Undecide("%s: no implementation of the interface method %s is created on the way from Decrypt; the processor cannot be found", name, cc.Method.Name())
+					}
+					return
+				}
 				if sc := staticCallee(ci); sc != nil {
 					judge(FuncName(p, f), ci.Pos(), nil, sc)
 				} else if _, isParam := cc.Value.(*ssa.Parameter); !isParam {
@@ -2301,4 +2564,93 @@ func c02CountViolations(r *Report) int {
 		}
 	}
 	return n
+}
+
+// c02OutcomeTest decodes an If edge that tests the outcome of an
+// authentication: an error against nil (success = it is nil) or an ok flag
+// (success = it is true). Returns the tested value and whether the edge is
+// the success side.
+func c02OutcomeTest(from, to *ssa.BasicBlock) (v ssa.Value, success bool, ok bool) {
+	if v, isNil, ok := c02NilTest(from, to); ok {
+		return v, isNil, true
+	}
+	if len(from.Instrs) == 0 || len(from.Succs) != 2 || from.Succs[0] == from.Succs[1] {
+		return nil, false, false
+	}
+	ifi, isIf := from.Instrs[len(from.Instrs)-1].(*ssa.If)
+	if !isIf {
+		return nil, false, false
+	}
+	cond, truth := ifi.Cond, from.Succs[0] == to
+	for i := 0; i < 4; i++ {
+		switch x := cond.(type) {
+		case *ssa.UnOp:
+			if x.Op == token.NOT {
+				cond, truth = x.X, !truth
+				continue
+			}
+		case *ssa.BinOp:
+			// flag == true / flag != false …
+			if (x.Op == token.EQL || x.Op == token.NEQ) && c02IsBool(x.X.Type()) {
+				if k, isK := x.Y.(*ssa.Const); isK && k.Value != nil && k.Value.Kind() == constant.Bool {
+					if constant.BoolVal(k.Value) != (x.Op == token.EQL) {
+						truth = !truth
+					}
+					cond = x.X
+					continue
+				}
+			}
+			return nil, false, false
+		}
+		break
+	}
+	if !c02IsBool(cond.Type()) {
+		return nil, false, false
+	}
+	if _, isCall := cond.(*ssa.Call); isCall {
+		// the flag returned directly by a call (if k.open(...) {…}) is that call's outcome
+		return cond, truth, true
+	}
+	return cond, truth, true
+}
+
+// c02SuccessConst: the constant with which a function reports success: a nil error or a true ok flag.
+func c02SuccessConst(v ssa.Value) bool {
+	if isNilConst(v) {
+		return true
+	}
+	k, ok := v.(*ssa.Const)
+	return ok && k.Value != nil && k.Value.Kind() == constant.Bool && constant.BoolVal(k.Value)
+}
+
+// c02FailConst: a false ok flag.
+func c02FailConst(v ssa.Value) bool {
+	k, ok := v.(*ssa.Const)
+	return ok && k.Value != nil && k.Value.Kind() == constant.Bool && !constant.BoolVal(k.Value)
+}
+
+// c02IsOutcomeExpr: e is the ok flag computed from an authentication error: `err == nil` (or !(err != nil)).
+func c02IsOutcomeExpr(e ssa.Value, errs []ssa.Value) bool {
+	neg := false
+	for i := 0; i < 3; i++ {
+		if u, ok := e.(*ssa.UnOp); ok && u.Op == token.NOT {
+			e, neg = u.X, !neg
+			continue
+		}
+		break
+	}
+	bo, ok := e.(*ssa.BinOp)
+	if !ok || (bo.Op != token.EQL && bo.Op != token.NEQ) {
+		return false
+	}
+	var x ssa.Value
+	switch {
+	case isNilConst(bo.Y):
+		x = bo.X
+	case isNilConst(bo.X):
+		x = bo.Y
+	default:
+		return false
+	}
+	return c02CarriesAny(x, errs) && (bo.Op == token.EQL) != neg
 }
